@@ -50,7 +50,14 @@ type c19Case struct {
 	Globals bool `json:"globals,omitempty"`
 }
 
-func c19Check(k c19Case) (string, string) {
+func c19Check(k c19Case) (key, detail string) {
+	if p := catch(func() { key, detail = c19Check1(k) }); p != "" {
+		return "panic", fmt.Sprintf("%s on %+v", p, k)
+	}
+	return
+}
+
+func c19Check1(k c19Case) (string, string) {
 	if k.Globals {
 		// the codec is a pure function of its argument: the exported, assignable package variables are not part of it
 		r, s, e := stun.BindingRequest, stun.BindingSuccess, stun.BindingError
@@ -59,7 +66,7 @@ func c19Check(k c19Case) (string, string) {
 		stun.BindingError = stun.NewType(stun.Method(0), stun.ClassSuccessResponse)
 		defer func() { stun.BindingRequest, stun.BindingSuccess, stun.BindingError = r, s, e }()
 		k.Globals = false
-		key, d := c19Check(k)
+		key, d := c19Check1(k)
 		if key != "" {
 			return key + "/after-reassigning-exported-type-variables", d
 		}
@@ -87,6 +94,26 @@ func c19Check(k c19Case) (string, string) {
 		m.SetType(t)
 		if w := uint16(m.Raw[0])<<8 | uint16(m.Raw[1]); w != want {
 			return "enc-wire", fmt.Sprintf("SetType(%v) wrote %#04x want %#04x", t, w, want)
+		}
+		// the field already holds t while the bytes still hold another type (the caller assigned m.Type, or changed
+		// m.Type.Class of a decoded request): SetType / AddTo must write the bytes all the same
+		for _, prevWord := range []uint16{0x0001, 0x3FFF, ^want & 0x3FFF} {
+			h := new(stun.Message)
+			h.Type.ReadValue(prevWord)
+			h.WriteHeader()
+			h.Type = t
+			h.SetType(t)
+			if w := uint16(h.Raw[0])<<8 | uint16(h.Raw[1]); w != want {
+				return "enc-wire-settype-stale", fmt.Sprintf("SetType(%v) on a Message whose Type field already is %v while its bytes say %#04x left %#04x, want %#04x", t, t, prevWord, w, want)
+			}
+			h2 := new(stun.Message)
+			h2.Type.ReadValue(prevWord)
+			h2.WriteHeader()
+			h2.Type = t
+			_ = t.AddTo(h2)
+			if w := uint16(h2.Raw[0])<<8 | uint16(h2.Raw[1]); w != want {
+				return "enc-wire-settype-stale", fmt.Sprintf("MessageType(%v).AddTo on a Message whose Type field already is %v while its bytes say %#04x left %#04x, want %#04x", t, t, prevWord, w, want)
+			}
 		}
 		// WriteHeader renders the type into its two bytes whatever the other fields hold (Length is a uint32
 		// that a reused Message may carry over from a larger payload)
